@@ -266,7 +266,9 @@ def render_gantt_matplotlib(
                 for i in range(solution.horizon + 1)
             ]
         gantt_chart.set_xlim(0, solution.horizon)
-        plt.xticks(range(solution.horizon + 1), times_str, rotation=60)
+        # on the gantt axes: with buffers, pyplot's current axes is the buffer chart
+        gantt_chart.set_xticks(range(solution.horizon + 1))
+        gantt_chart.set_xticklabels(times_str, rotation=60)
         plt.subplots_adjust(bottom=0.15)
         gantt_chart.set_xlabel("Time", fontsize=12)
     else:
